@@ -90,6 +90,9 @@ func seqProfile(prop string, g *Gen, cfg *Config, rng *SplitMix) (steps int) {
 		g.W["sequence"] = 14
 		g.AimPct = 10
 		g.IOPct = 12
+		if rng.Chance(1, 3) {
+			g.Text = "unicode" // (on top of the general 1 in 3: about half of C10's runs)
+		}
 	case "C11":
 		g.RawPct = 25
 		g.W["plan"] = 30
